@@ -161,7 +161,10 @@ func (c *tracingHTTP2Conn) handleFrame(frame http2.Frame, isRequest bool) {
 			stream.builder.trace.Request.Trailer = makeHeaders(frame)
 		default:
 			// response trailers
-			stream.builder.trace.Response.Trailer = makeHeaders(frame)
+			if resp := stream.builder.trace.Response; resp != nil {
+				// (nil if the stream has no test name and thus is not traced)
+				resp.Trailer = makeHeaders(frame)
+			}
 		}
 		if frame.StreamEnded() {
 			c.closeStreamLocked(frame.StreamID, stream, isRequest, nil)
